@@ -97,40 +97,49 @@ class LeanPrinter(ast.NodeVisitor):
             raise ValueError("clause construct not printable to Lean: %s" % type(node).__name__)
         return m(node)
 
+    _ORDER = {"bool": 0, "int": 1, "real": 2, "cx": 3}
+
+    def _join(self, *ks):
+        ks = [k for k in ks if k != "bool"] or ["int"]
+        return max(ks, key=lambda k: self._ORDER[k])
+
     def kind(self, node):
-        """'int' | 'real' | 'bool' of a sub-expression (for coercions)"""
+        """'int' | 'real' | 'cx' | 'bool' of a sub-expression (for coercions)"""
         if isinstance(node, ast.Constant):
             if isinstance(node.value, bool):
                 return "bool"
+            if isinstance(node.value, complex):
+                return "cx"
             return "int" if isinstance(node.value, int) else "real"
         if isinstance(node, ast.Name):
             if node.id in self.bound:
                 return "int"
             t = self.types.get(node.id, "real")
-            return t if t in ("int", "real", "bool") else "real"
+            return t if t in ("int", "real", "bool", "cx") else "real"
         if isinstance(node, ast.Subscript):
             base = node.value
             if isinstance(base, ast.Name):
-                return "int" if self.types.get(base.id, "arr").startswith("iarr") else "real"
+                t = self.types.get(base.id, "arr")
+                return "int" if t.startswith("iarr") else "cx" if t.startswith("carr") else "real"
             return "real"
         if isinstance(node, ast.BinOp):
-            if isinstance(node.op, ast.Div):
-                return "real"
             a, b = self.kind(node.left), self.kind(node.right)
-            return "real" if "real" in (a, b) else "int"
+            if isinstance(node.op, ast.Div):
+                return self._join(a, b, "real")
+            return self._join(a, b)
         if isinstance(node, ast.UnaryOp):
             return self.kind(node.operand)
         if isinstance(node, ast.Call) and isinstance(node.func, ast.Name):
             if node.func.id == "Sum":
                 return self.kind_in(node.args[0].id, node.args[2])
             if node.func.id == "ite":
-                a, b = self.kind(node.args[1]), self.kind(node.args[2])
-                return "real" if "real" in (a, b) else "int"
-            if node.func.id in ("old", "entry"):
+                return self._join(self.kind(node.args[1]), self.kind(node.args[2]))
+            if node.func.id in ("old", "entry", "pre", "conj"):
                 return self.kind(node.args[0])
+            if node.func.id in ("re", "im"):
+                return "real"
         if isinstance(node, ast.IfExp):
-            a, b = self.kind(node.body), self.kind(node.orelse)
-            return "real" if "real" in (a, b) else "int"
+            return self._join(self.kind(node.body), self.kind(node.orelse))
         return "bool"
 
     def kind_in(self, var, node):
@@ -144,10 +153,17 @@ class LeanPrinter(ast.NodeVisitor):
 
     def num(self, node, want):
         k = self.kind(node)
+        if want == k or k == "bool":
+            return self.p(node)
+        sym = {"real": "ℝ", "cx": "ℂ", "int": "ℤ"}[want]
+        if isinstance(node, ast.Constant) and isinstance(node.value, int) and want in ("real", "cx"):
+            return "(%d : %s)" % (node.value, sym)
         if want == "real" and k == "int":
-            if isinstance(node, ast.Constant) and isinstance(node.value, int):
-                return "(%d : ℝ)" % node.value
             return "((%s : ℤ) : ℝ)" % self.p(node)
+        if want == "cx" and k == "real":
+            return "((%s : ℝ) : ℂ)" % self.p(node)
+        if want == "cx" and k == "int":
+            return "(((%s : ℤ) : ℝ) : ℂ)" % self.p(node)
         return self.p(node)
 
     def p_Constant(self, n):
@@ -191,7 +207,7 @@ class LeanPrinter(ast.NodeVisitor):
         parts = []
         left = n.left
         for op, right in zip(n.ops, n.comparators):
-            k = "real" if "real" in (self.kind(left), self.kind(right)) else "int"
+            k = self._join(self.kind(left), self.kind(right))
             sym = {ast.Eq: "=", ast.NotEq: "≠", ast.Lt: "<", ast.LtE: "≤", ast.Gt: ">", ast.GtE: "≥"}[type(op)]
             parts.append("(%s %s %s)" % (self.num(left, k), sym, self.num(right, k)))
             left = right
@@ -242,6 +258,8 @@ class LeanPrinter(ast.NodeVisitor):
                 if not self.bound[v]:
                     del self.bound[v]
             return "(∑ %s ∈ Finset.Ico %s %s, %s)" % (v, lo, hi, body)
+        if f == "conj":
+            return "((starRingEnd ℂ) %s)" % self.num(n.args[0], "cx")
         if f in ("old", "entry"):
             sub = LeanPrinter(self.types, dict(self.rename))
             sub.bound = self.bound
@@ -283,9 +301,11 @@ def lean_type(t):
         return "ℤ"
     if t == "real":
         return "ℝ"
-    m = re.match(r"(i?)arr(\d)", t)
+    if t == "cx":
+        return "ℂ"
+    m = re.match(r"([ic]?)arr(\d)", t)
     if m:
-        elem = "ℤ" if m.group(1) else "ℝ"
+        elem = "ℤ" if m.group(1) == "i" else "ℂ" if m.group(1) == "c" else "ℝ"
         return " → ".join(["ℤ"] * int(m.group(2)) + [elem])
     raise ValueError(t)
 
